@@ -1150,6 +1150,98 @@ fn regress_ops(case: usize) -> Vec<String> {
     ops
 }
 
+
+// ---------------------------------------------------------------------------------------------
+// bounded exhaustive sweep: every arrival order of every subset of sequence numbers 0..=6
+// (13 700 cases; model validation + "acks = exactly the received set" on the implementation)
+// ---------------------------------------------------------------------------------------------
+fn sweep_arrangement(mut idx: usize) -> Vec<u64> {
+    // enumerate (subset size k, k-permutation of 7 items) in a fixed order
+    for k in 0..=7usize {
+        let count: usize = (0..k).map(|i| 7 - i).product();
+        if idx < count {
+            let mut items: Vec<u64> = (0..7).collect();
+            let mut out = vec![];
+            let mut rem = idx;
+            for i in 0..k {
+                let radix = 7 - i;
+                let d = rem % radix;
+                rem /= radix;
+                out.push(items.remove(d));
+            }
+            return out;
+        }
+        idx -= count;
+    }
+    vec![]
+}
+
+const SWEEP_ACKS_N: usize = 13_700;
+
+fn sweep_acks_ops(case: usize) -> Vec<String> {
+    let mut ops = vec![cfg_line(60_000, &default_chans(), &default_chans()), "cli 0".to_string()];
+    let spread = [0u64, 1, 2, 3, 4, 5, 6];
+    for s in sweep_arrangement(case) {
+        let mut b = vec![1u8];
+        b.extend(varint(spread[s as usize]));
+        b.push(0);
+        b.extend(0u16.to_be_bytes());
+        ops.push(format!("raw c0 {}", hex(&b)));
+    }
+    ops.push("dump c0".into());
+    ops.push("flush c0".into());
+    ops.push("note sweep-acks".into());
+    ops
+}
+
+/// C16/C08 on the sweep: the pending-ack list denotes exactly the set of sequence numbers handed
+/// over, as maximal ranges, and the emitted ack packet decodes to exactly that list.
+fn oracle_sweep_acks(ops: &[String], outs: &[String]) -> Option<OracleFail> {
+    if !ops.iter().any(|o| o == "note sweep-acks") {
+        return None;
+    }
+    let mut got: std::collections::BTreeSet<u64> = Default::default();
+    for (i, (op, out)) in ops.iter().zip(outs.iter()).enumerate() {
+        if let Some(h) = op.strip_prefix("raw c0 ") {
+            if let Some(p) = decode(h) {
+                got.insert(p.sequence());
+            }
+        }
+        if op == "dump c0" {
+            let mut expect: Vec<(u64, u64)> = vec![];
+            for s in got.iter() {
+                match expect.last_mut() {
+                    Some(r) if r.1 == *s => r.1 = s + 1,
+                    _ => expect.push((*s, s + 1)),
+                }
+            }
+            let want: Vec<String> = expect.iter().map(|(a, b)| format!("{}-{}", a, b)).collect();
+            let have = head_field(out, "acks").unwrap_or("");
+            if have != want.join(";") {
+                return fail(i, "acks-not-the-set", format!("pending acks [{}] but the received set is [{}]", have, want.join(";")));
+            }
+        }
+        if op == "flush c0" && !got.is_empty() {
+            let pk = flush_packets(out);
+            match pk.last().and_then(|p| decode(p)) {
+                Some(WPacket::Ack { ack_ranges, .. }) => {
+                    let mut s: std::collections::BTreeSet<u64> = Default::default();
+                    for r in ack_ranges {
+                        for x in r {
+                            s.insert(x);
+                        }
+                    }
+                    if s != got {
+                        return fail(i, "ack-packet-not-the-set", format!("ack packet denotes {:?}, received {:?}", s, got));
+                    }
+                }
+                _ => return fail(i, "ack-packet-missing", "no ack packet emitted although sequence numbers are pending".to_string()),
+            }
+        }
+    }
+    None
+}
+
 // ---------------------------------------------------------------------------------------------
 // E1: renet wire format
 // ---------------------------------------------------------------------------------------------
@@ -1405,6 +1497,16 @@ pub fn profiles() -> Vec<Profile> {
         nontrivial: |t| t.ops.iter().any(|o| o.starts_with("bcast")) && t.outs.iter().any(|o| o.starts_with("msg ")),
         keep: keep_cfg,
         fixed: None,
+    },
+    Profile {
+        name: "rn-sweep-acks",
+        props: &["C16", "C08"],
+        cases: |_| SWEEP_ACKS_N,
+        new_world,
+        script: script_none,
+        nontrivial: |t| t.ops.len() > 5,
+        keep: |_| 2,
+        fixed: Some(sweep_acks_ops),
     },
     Profile {
         name: "rn-acks",
@@ -2269,6 +2371,8 @@ pub fn oracles() -> Vec<Oracle> {
         Oracle { prop: "C02", name: "unordered-once", engines: &["rn-pair", "rn-multi", "rn-timing", "rn-long", "rn-acks", "rn-regress"], check: oracle_c02 },
         Oracle { prop: "C03", name: "integrity", engines: &["rn-pair"], check: oracle_c03 },
         Oracle { prop: "C16", name: "roundtrip", engines: &["rn-wire"], check: oracle_c16 },
+        Oracle { prop: "C16", name: "acks-are-the-set", engines: &["rn-sweep-acks"], check: oracle_sweep_acks },
+        Oracle { prop: "C08", name: "acks-are-the-set", engines: &["rn-sweep-acks"], check: oracle_sweep_acks },
         Oracle { prop: "C06", name: "no-panic-bounded", engines: &["rn-"], check: oracle_c06 },
         Oracle { prop: "C09", name: "accounting", engines: &["rn-pair", "rn-hostile", "rn-regress", "rn-long", "rn-timing", "rn-acks"], check: oracle_c09 },
         Oracle { prop: "C12", name: "finality-events", engines: &["rn-api", "rn-regress", "rn-hostile"], check: oracle_c12 },
